@@ -15,7 +15,7 @@ import z3
 
 from pyvc.framework import Harness
 from pyvc.interp import Spec, PyRaise, INLINE
-from pyvc.values import Obj, PyList, PySet, Builtin, Opaque, SymStream, GenObj
+from pyvc.values import Obj, PyList, PySet, Builtin, Opaque, SymStream, GenObj, SBool
 from pyvc.ops import make_dict
 from pyvc.repo import ClassInfo
 from .lib import UserVal, install_user_hooks, user_effects
@@ -31,10 +31,12 @@ FUNCTIONS = [(ENT, "let"), (ENT, "_get_domain_source_from_domain_and_type_values
              (SYM, "Variable._update_domain_"), (SYM, "Variable._update_child_vars_from_kwargs_"), (SYM, "Literal.__init__"),
              (SYM, "BinaryOperator.__post_init__"), (SYM, "CanBehaveLikeAVariable.__getattr__"), (SYM, "CanBehaveLikeAVariable.__eq__"),
              (SYM, "CanBehaveLikeAVariable.__call__"), (SYM, "CanBehaveLikeAVariable.__getitem__"), (SYM, "optimize_or"),
+             (SYM, "Exists._evaluate__"), (SYM, "Flatten._apply_mapping_"), (SYM, "Index._name_"), (SYM, "Call._name_"), (SYM, "Attribute._name_"),
+             (SYM, "Comparator._name_"), (SYM, "QueryObjectDescriptor._name_"), (SYM, "Flatten._name_"),
              (HD, "HashedIterable.__post_init__"), (HD, "HashedIterable.set_iterable"), (HD, "HashedValue.__post_init__"),
              ("krrood.entity_query_language.utils", "is_iterable"), ("krrood.entity_query_language.utils", "make_list")]
 ASSUMPTIONS = [
-    "RWXNode (display graph) and the class-diagram lookups of Attribute are abstracted (no user data flows into them)",
+    "RWXNode (display graph) and the class-diagram lookups of Attribute are abstracted; the node labels handed to it are computed by the real _name_ properties (formatting a user value with f-string / str / repr is an effect)",
     "isinstance / type / id / hasattr(x, '__iter__') do not run user code (true for ordinary classes without metaclass tricks)",
     "copying a list or tuple literal with list(...) is a builtin operation, not an iteration of user code",
 ]
@@ -59,6 +61,8 @@ def setup(vm):
     install_user_hooks(vm, fork_truth=False)
     from .C08 import Forest
     Forest(vm)                      # RWXNode abstraction, id generator
+    # the node labels are computed by the real `_name_` properties at construction (they must not format user data)
+    vm.spec.attr_hooks.pop(("SymbolicExpression", "_name_"), None)
     vm.loader.add_module("pyvc_synth_c10", SYNTH)
     vm.spec.attr_hooks[("Attribute", "_wrapped_owner_class_")] = lambda it, o: None
     vm.spec.attr_hooks[("Attribute", "_wrapped_field_")] = lambda it, o: None
@@ -95,6 +99,8 @@ def builders(vm, Thing):
            ("contains(x.items, literal)", lambda: vm.call(g(vm, ENT, "contains"), [vm._getattr(x, "items"), lit], {})),
            ("in_(x.a, user-container)", lambda: vm.call(g(vm, ENT, "in_"), [vm._getattr(x, "a"), UserVal("container", iterable=True)], {})),
            ("x.items[0]", lambda: vm.getitem(vm._getattr(x, "items"), 0)),
+           ("x.items[user-key]", lambda: vm.getitem(vm._getattr(x, "items"), UserVal("key"))),
+           ("x.method(literal, key=literal)", lambda: vm.call(vm._getattr(x, "method"), [lit], {"key": UserVal("kwarg")})),
            ("x.method(literal)", lambda: vm.call(vm._getattr(x, "method"), [lit], {})),
            ("flatten(x.items)", lambda: vm.call(g(vm, ENT, "flatten"), [vm._getattr(x, "items")], {})),
            ("flatten(user-container)", lambda: vm.call(g(vm, ENT, "flatten"), [UserVal("nested", iterable=True)], {})),
@@ -193,6 +199,103 @@ def h_evaluation_discipline():
     return Harness("evaluation-discipline", run, spec=Spec(), max_paths=3000, ematching_only=True, timeout_ms=3000, retry_unknown=False)
 
 
+class AnySeq(Opaque):
+    """a local container after a loop havoc: membership / content unknown, writes absorbed; iterating it gives an abstract
+    stream of (at least possibly one) arbitrary members -- what a collect-then-yield rewrite of an operator would iterate"""
+
+    def __init__(self, name, member):
+        super().__init__("anyseq:" + name)
+        self.name, self.member = name, member
+
+    def m_getattr(self, vm, name):
+        if name in ("append", "add", "extend", "update", "clear", "remove", "discard", "insert", "setdefault", "pop"):
+            return Builtin("anyseq." + name, lambda it, fr, a, k: None)
+        if name in ("values", "items", "keys", "copy"):
+            return Builtin("anyseq." + name, lambda it, fr, a, k: self)
+        vm.raise_("AttributeError", name)
+
+    def m_iter(self, vm):
+        return SymStream(f"held-back-{self.name}", lambda it, i: self.member(it), length=vm.ctx.fresh_int("n_held"))
+
+    def m_contains(self, vm, k):
+        return SBool(vm.ctx.fresh_bool("in_held"))
+
+    def m_truth(self, vm):
+        return SBool(vm.ctx.fresh_bool("held_nonempty"))
+
+    def m_setitem(self, vm, k, v):
+        return None
+
+    def m_getitem(self, vm, k):
+        return self.member(vm)
+
+
+def h_streaming_exists():
+    """Exists._evaluate__ is demand driven: every result is yielded while the condition stream is being pulled -- none after
+    it has ended (which is what collecting witnesses first and reporting them afterwards does)."""
+    from .eqlmodel import EqlWorld, Bnd
+    from pyvc.ctx import PathEnd
+
+    def run(vm):
+        ctx = vm.ctx
+        world = EqlWorld(vm)
+        cond = world.child("condition", 12)
+        var = world.child("variable", 11, kind="operand")
+        from .eqlmodel import Bs
+
+        def member(it):          # whatever was put aside: some earlier result of the condition
+            return it.alloc(world.OR, {"bindings": Bnd(it.ctx.fresh_const("b_held", Bs), world), "is_false": False, "operand": cond}, tag="held-back-result")
+        vm.spec.opaque_hooks["havoc_container"] = lambda it, old, what: AnySeq(what, member)
+        vm.spec.opaque_hooks["havoc_value"] = lambda it, old, what: AnySeq(what, member) if isinstance(old, (PyList, PySet)) or type(old).__name__ == "PyDict" else None
+        node = vm.alloc(vm.loader.cls(SYM, "Exists"), {"variable": var, "condition": cond, "_id_": 10, "_is_false_": False, "_eval_parent_": None, "_conclusion_": None}, tag="Exists")
+        gen = vm.call_method(node, "_evaluate__", Bnd(world.sigma0, world))
+        try:
+            for res in vm.iterate(gen):
+                ended = [n for n in ctx.notes if n[0] == "exhausted" and str(n[2]).startswith("condition@")]
+                ctx.cover("yielded-while-pulling") if not ended else None
+                ctx.check("prompt::Exists._evaluate__::no-result-is-held-back-until-the-condition-stream-has-ended", z3.BoolVal(not ended),
+                          detail="a result was yielded after the condition stream was exhausted")
+        except PyRaise as pr:
+            if pr.exc.cls.name == "KeyError":
+                raise PathEnd()          # precondition: the quantified variable occurs in (is bound by) the condition
+            raise
+        mats = [e[1] for e in ctx.effects if e[0] == "materialise"]
+        ctx.check("prompt::Exists._evaluate__::the-condition-stream-is-not-materialised", z3.BoolVal(not mats), detail=repr(mats[:2]))
+    return Harness("streaming-Exists", run, spec=Spec(), covers=["yielded-while-pulling"], max_paths=400, ematching_only=True, timeout_ms=3000, retry_unknown=False)
+
+
+def h_streaming_flatten():
+    """Flatten._apply_mapping_ walks the inner iterable with a for loop: element i is yielded before element i+1 is pulled,
+    and the inner iterable is never copied (list / tuple / sorted / make_list of it)."""
+    def run(vm):
+        ctx = vm.ctx
+        install_user_hooks(vm, fork_truth=False)
+        log = []
+        inner = UserVal("inner", iterable=True)
+
+        def iter_value(it, v):
+            log.append("iter")
+            return SymStream("inner-elements", lambda it2, i: UserVal("inner[i]"), length=ctx.fresh_int("n_inner"))
+
+        def to_list(it, v):
+            log.append("copied")
+            return [UserVal("inner[0]")]
+        vm.spec.opaque_hooks["iter_value"] = iter_value
+        vm.spec.opaque_hooks["to_list"] = to_list
+        vm.spec.opaque_hooks["collect_stream"] = lambda it, s, kind: (log.append("copied"), PyList([]))[1]
+        HV = vm.loader.cls(HD, "HashedValue")
+        node = vm.alloc(vm.loader.cls(SYM, "Flatten"), {"_id_": 10, "_is_false_": False}, tag="Flatten")
+        value = vm.alloc(HV, {"value": inner, "id_": 7}, tag="hashed-value")
+        n = 0
+        for out in vm.iterate(vm.call_method(node, "_apply_mapping_", value)):
+            n += 1
+            ended = [x for x in ctx.notes if x[0] == "exhausted" and x[2] == "inner-elements"]
+            ctx.cover("yielded-while-pulling") if not ended else None
+            ctx.check("prompt::Flatten._apply_mapping_::no-element-is-held-back-until-the-inner-iterable-has-ended", z3.BoolVal(not ended))
+        ctx.check("prompt::Flatten._apply_mapping_::the-inner-iterable-is-not-copied", z3.BoolVal("copied" not in log), detail=repr(log))
+    return Harness("streaming-Flatten", run, spec=Spec(), covers=["yielded-while-pulling"], max_paths=400)
+
+
 def h_hashed_iterable():
     """HashedIterable.__iter__ replays the cache then pulls from the wrapped iterable one element at a time."""
     def run(vm):
@@ -240,5 +343,5 @@ def prompt(h):
 def harnesses():
     from . import C09
     hq = {h.name: h for h in C09.harnesses()}
-    return [h_construction(), h_symbolic_callables(), h_evaluation_discipline(), h_hashed_iterable()] + \
+    return [h_construction(), h_symbolic_callables(), h_evaluation_discipline(), h_hashed_iterable(), h_streaming_exists(), h_streaming_flatten()] + \
         [prompt(hq[n]) for n in ("an-evaluate[none+var]", "an-evaluate[c+upper+var]") if n in hq] + [h_canary()]
